@@ -294,6 +294,7 @@ func (e *Evaluator) evalExpr(expr Expr) (*Cell, error) {
 
 			if isMatch {
 				// TODO using a stack frame is weird
+				outerFrame := e.stackTop
 				if err = e.pushFrame("<match>"); err != nil {
 					return nil, e.error(exp.Token(), err.Error())
 				}
@@ -302,22 +303,22 @@ func (e *Evaluator) evalExpr(expr Expr) (*Cell, error) {
 					e.stackTop.locals[k] = v
 				}
 
+				// the bindings' frame is dropped however the body ends (a value,
+				// an error, or return/next/exit/break/continue passing through)
 				switch body := matchCase.Body.(type) {
 				case *StatementExpr:
 					val, err := e.evalExpr(body.Expr)
+					e.stackTop = outerFrame
 					if err != nil {
 						return nil, err
 					}
 					return val, nil
 				default:
 					err := e.evalStatement(body)
+					e.stackTop = outerFrame
 					if err != nil {
 						return nil, err
 					}
-				}
-
-				if err := e.popFrame(); err != nil {
-					return nil, err
 				}
 
 				return NewCell(NewValue(nil)), nil
@@ -415,6 +416,7 @@ func (e *Evaluator) callFunction(exp *ExprCall, fn *Cell, args []*Value) (*Cell,
 		f := fn.Value.Fn
 		name := e.lexer.GetString(&f.ident)
 
+		callerFrame := e.stackTop
 		if err := e.pushFrame(name); err != nil {
 			return nil, e.error(exp.Token(), err.Error())
 		}
@@ -428,6 +430,9 @@ func (e *Evaluator) callFunction(exp *ExprCall, fn *Cell, args []*Value) (*Cell,
 		}
 
 		err := e.evalStatement(f.Body)
+		// the call's frame is dropped however the body ends (falling off the
+		// end, return, an error, or next/exit passing through)
+		e.stackTop = callerFrame
 		var retVal *Value
 		if err == errReturn {
 			retVal = e.returnVal
@@ -435,10 +440,6 @@ func (e *Evaluator) callFunction(exp *ExprCall, fn *Cell, args []*Value) (*Cell,
 			return nil, err
 		} else {
 			retVal = nil
-		}
-
-		if err := e.popFrame(); err != nil {
-			return nil, err
 		}
 
 		if retVal != nil {
